@@ -144,6 +144,7 @@ RECV_SELS = {
 def directed():
     import random
     rng = random.Random(606)
+    prog._CUR["dtype"] = "int64"
     for rname, chain in RECV_SELS.items():
         rows = BASE_ROWS
         steps0 = [{"op": "init", "v": "a0", "rows": [list(r) for r in rows]}]
